@@ -27,6 +27,8 @@ type recWriter struct {
 	ops   []wop
 	failW bool
 	failF bool
+	/* failLater: that many more writes succeed, then one fails (0: off). */
+	failLater int
 }
 
 var errInjected = errors.New("injected transport failure")
@@ -37,9 +39,22 @@ func (r *recWriter) setFail(w, f bool) {
 	r.mu.Unlock()
 }
 
+func (r *recWriter) setFailLater(n int) {
+	r.mu.Lock()
+	r.failLater = n
+	r.mu.Unlock()
+}
+
 func (r *recWriter) write(p []byte) (int, error) {
 	r.mu.Lock()
 	defer r.mu.Unlock()
+	if r.failLater > 0 {
+		if r.failLater--; 0 == r.failLater {
+			r.failW = true /* The next one fails. */
+		}
+		r.ops = append(r.ops, wop{Op: "W", Data: string(p)})
+		return len(p), nil
+	}
 	if r.failW {
 		r.failW = false
 		r.ops = append(r.ops, wop{Op: "W", Data: string(p), Err: true})
